@@ -208,7 +208,12 @@ def run(ck):
     sort_hists = [[A(6)], [A(7)], [A(6), A(7), SOLVE], [A(7), A(6), A(7)], [PU(1), A(7), PO(1), A(7), A(6)],
                   [A(7), PU(2), A(6), PO(1), A(6), SOLVE], [PU(1), A(6), PU(1), A(7), PO(2), A(7), A(6)],
                   [A(1), PU(1), A(7), SOLVE, PO(1), A(6), {"c": "reset", "x": 0, "n": 0, "id": ""}, A(7), A(6)]]
-    hists = hists + sort_hists
+    # push(0) / pop(0) are legal no-ops
+    GM = {"c": "get_model", "x": 0, "n": 0, "id": ""}
+    zero_hists = [[A(1), PO(0), SOLVE, GM, A(3)], [A(1), PU(1), A(3), PO(0), SOLVE, GM, A(1), PO(1), A(3)],
+                  [PU(0), A(1), SOLVE, GM], [A(2), PU(2), A(1), PO(0), PU(0), A(3), PO(1), A(1), SOLVE, GM],
+                  [PO(0), A(1), PO(0), A(3), SOLVE, GM, PU(1), PO(0), PO(1), A(2)], [PU(1), PO(0), PO(1), PU(0), A(1), SOLVE, GM]]
+    hists = hists + sort_hists + zero_hists
     env = fresh_env()
     terms, m0, syms = world(env)
     scratch = tempfile.mkdtemp(prefix="c17_")
